@@ -1,5 +1,6 @@
 (* C01 -- lossless CST.  The grammar is the one regenerated from /repo (Gen/GenGrammar.v, one entry
    per parser function); the theorems are about the PEG interpreter of Nom/Peg.v. *)
+From SV Require HandLex GenLexers LexFacts.
 From SV Require Import Peg PegFacts NonNull LeafPos GenGrammar.
 Local Open Scope nat_scope.
 
@@ -57,3 +58,9 @@ Proof.
                 C01_leaves_made_of_consuming_spans fuel (FCall n) 0 [] (mkPst A [] [] cap a) eq_refl) as H.
   rewrite Hrun in H. destruct H as (_ & _ & H); [intros ? ? ? ? ? []|intros ? ? ? ? ? []|exact H].
 Qed.
+
+(* for the token lexers written by hand (numbers, bases, identifiers; tables regenerated into Gen/GenLexers.v)
+   the hypothesis is a theorem: a success consumes at least one byte and stays inside the text *)
+Theorem C01_token_lexers_consume : forall veto l w n,
+  In l GenLexers.token_lexers -> HandLex.lex veto l w = Some n -> 1 <= n <= length w.
+Proof. exact LexFacts.token_lexer_consumes. Qed.
